@@ -124,12 +124,28 @@ def normOf (k : Str × Option Str) : Str → Option Str := fun _ => k.2
 /-- the table (or packet) member designated by `ref/key`, as a reference -/
 def memberRef (r : Ref) (s : Step) : Ref := { r with path := r.path ++ [s] }
 
-/-- set on a map held at `r` (a table value or a packet): shared by tset and pset.  `badKey` = code for a rejected key. -/
-def mapSetOp (st : St) (r : Ref) (key : Str × Option Str) (src : Option Ref) (badKey : Code) : Option (St × String) :=
+/-- `cif_value_set_item_by_key` of Model/Value.lean on a value, with the request's normaliser -/
+def tableSetFn (key : Str × Option Str) : V → Str → Option V → Except Code V := fun v k x => tableSet (normOf key) v k x
+
+/-- `cif_packet_set_item` of Model/Value.lean (a packet is held as `.tbl es` in its slot) -/
+def packetSetFn (key : Str × Option Str) : V → Str → Option V → Except Code V := fun v k x =>
+  match v with
+  | .tbl es => (packetSet (normOf key) es k x).map .tbl
+  | _ => .error ARGUMENT_ERROR
+
+/-- set on a map held at `r` (a table value or a packet): shared by tset and pset.  `setFn` is the entry-point model of
+    Model/Value.lean (`Value.tableSet` / `Value.packetSet` with the request's normaliser): the VERDICT (which refusal code, or
+    acceptance) and the result for a new entry are what that function answers; only the by-reference treatment of an existing entry
+    (spelling replaced first, then the value copied onto the member object) is spelled out here. -/
+def mapSetOp (st : St) (r : Ref) (key : Str × Option Str) (src : Option Ref) (setFn : V → Str → Option V → Except Code V) :
+    Option (St × String) :=
   match resolveRef st r with
   | some (.tbl es) =>
+    match setFn (.tbl es) key.1 none with
+    | .error c => some (st, codeStr c)
+    | .ok _ =>
     match key.2 with
-    | none => some (st, codeStr badKey)
+    | none => none                      -- accepted although the request carries no normal form: not a request of this family
     | some nk =>
       match mapFind es nk with
       | none =>
@@ -139,7 +155,10 @@ def mapSetOp (st : St) (r : Ref) (key : Str × Option Str) (src : Option Ref) (b
           | some s => (resolveRef st s).map some
         match x with
         | none => none
-        | some xv => (updateRef st r (.tbl (mapSet es nk key.1 xv))).map (fun st' => (st', "0"))
+        | some xv =>
+          match setFn (.tbl es) key.1 xv with
+          | .ok v' => (updateRef st r v').map (fun st' => (st', "0"))
+          | .error _ => none
       | some e =>
         -- existing entry: the spelling is replaced first, then the value (unless it is the very same object)
         match updateRef st r (.tbl (mapReplace es nk key.1 e.2.2)) with
@@ -153,7 +172,10 @@ def mapSetOp (st : St) (r : Ref) (key : Str × Option Str) (src : Option Ref) (b
             else match copyOnto st1 s target with
               | .done st' => some (st', "0")
               | .bad => none
-  | some _ => some (st, codeStr ARGUMENT_ERROR)
+  | some v =>
+    match setFn v key.1 none with
+    | .error c => some (st, codeStr c)
+    | .ok _ => none
   | none => none
 
 def mapGetOp (st : St) (r : Ref) (key : Str × Option Str) : Option String :=
@@ -283,7 +305,7 @@ def step (st : St) (op : List String) : Option (St × String × List Root) :=
       pure (st, out, [])
   | ["tset", a, k, s] => do
       let r ← parseRef a; let key ← parseKey k; let src ← parseSrc s
-      let (st', out) ← mapSetOp st r key src INVALID_INDEX
+      let (st', out) ← mapSetOp st r key src (tableSetFn key)
       pure (st', out, [r.root])
   | ["trem", a, k, d] => do
       let r ← parseRef a; let key ← parseKey k
@@ -317,7 +339,7 @@ def step (st : St) (op : List String) : Option (St × String × List Root) :=
       let r ← parseSlot p; let key ← parseKey k; let src ← parseSrc s
       match r with
       | .pkt _ => do
-        let (st', out) ← mapSetOp st { root := r, path := [] } key src INVALID_ITEMNAME
+        let (st', out) ← mapSetOp st { root := r, path := [] } key src (packetSetFn key)
         pure (st', out, [r])
       | _ => none
   | ["prem", p, k, d] => do
